@@ -76,7 +76,12 @@ fn key_tail(rng: &mut Rng, i: usize, hostile: bool, nested: bool) -> String {
         }
     }
     if nested {
-        t = format!("dir{}/{}", rng.below(3), t);
+        t = if rng.chance(1, 4) {
+            // different objects whose final path segments coincide: still one identifier each
+            format!("d{}/dup", i)
+        } else {
+            format!("dir{}/{}", rng.below(3), t)
+        };
     }
     t
 }
